@@ -7,8 +7,8 @@
    not yet covered by a theorem are decided by the implementation <-> specification <->
    hardware differential run only (listed as unproved_forms in the evidence). *)
 From Coq Require Import ZArith Bool List.
-From AxV Require Import Bits Outcome Codes Iced State Rt Mem Trace Exec ExecP FrameTac FrameP RegFile RegsP ISA CodeSem IsaP OperandP MovP ByteStore RmP AluRmP Alu32P AluImmP AluImm32P MovxP SimpleP MovImmP SetccP Alu16P Alu8P AluImm16P AluImm8P MovImm16P MovImm8P MovStore32P MovStore16P MovStore8P DivP Examples.
-From AxG Require Import Flags Regs Operand Helpers Dispatch Frame I_lea I_mov I_div I_idiv I_cmovae I_cmove I_cmovne I_movsxd I_movzx I_cdqe I_cqo I_cdq I_cld I_nop I_endbr64 I_setb I_sete I_setne.
+From AxV Require Import Bits Outcome Codes Iced State Rt Mem Trace Exec ExecP FrameTac FrameP RegFile RegsP ISA CodeSem IsaP OperandP MovP ByteStore RmP AluRmP Alu32P AluImmP AluImm32P MovxP SimpleP MovImmP SetccP Alu16P Alu8P AluImm16P AluImm8P MovImm16P MovImm8P MovStore32P MovStore16P MovStore8P DivP StoreP Misc16P XmmP Examples.
+From AxG Require Import Flags Regs Operand Helpers Dispatch Frame I_lea I_mov I_div I_idiv I_cmovae I_cmove I_cmovne I_movsxd I_movzx I_cdqe I_cqo I_cdq I_cld I_nop I_endbr64 I_setb I_sete I_setne I_cwd I_xorps I_movups I_movd.
 Local Open Scope Z_scope.
 
 (* apart from registers, flags, memory contents, FS/GS, the trace and the call stack,
@@ -244,6 +244,113 @@ Theorem C01_mov_rm8_r8 : forall c i s,
   end.
 Proof. exact mov_rm8_r8_exact. Qed.
 
+(* CWD; LEA r16, m; MOVZX r16, r/m8 - 16-bit destinations keep the upper 48 bits *)
+Theorem C01_cwd : forall c i s, wf_regs s -> i_code i = C_Cwd ->
+  exists s', isa_exec (SCwd 16) i s = IDone s' 0 /\ instr_cwd c i s = (Ok tt, s').
+Proof. exact cwd_refines. Qed.
+
+Theorem C01_lea_r16 : forall c i s,
+  i_code i = C_Lea_r16_m -> wf_regs s -> wf_mem_instr i ->
+  i_op_count i = 2 -> i_op_kind i 0 = OK_Register -> i_op_kind i 1 = OK_Memory ->
+  is_gpr16 (i_op_register i 0) = true ->
+  exists s', instr_lea_r16_m c i s = (Ok tt, s') /\ isa_exec (SLea 16) i s = IDone s' 0.
+Proof. exact lea16_refines. Qed.
+
+Theorem C01_movzx_r16_rm8 : forall c i s,
+  wf_regs s -> Inv (mem s) -> i_op_count i = 2 -> i_op_kind i 0 = OK_Register -> rm8_shape i 1 ->
+  i_code i = C_Movzx_r16_rm8 -> is_gpr16 (i_op_register i 0) = true ->
+  match isa_exec (SMovzx 16 8) i s with
+  | IDone s' u => instr_movzx_r16_rm8 c i s = (Ok tt, s') /\ u = 0
+  | IFault FMem => exists e, instr_movzx_r16_rm8 c i s = (Err e, s)
+  | IFault _ => False
+  end.
+Proof. exact movzx_r16_rm8_refines. Qed.
+
+(* the moffs encodings (A0..A3): accumulator <- absolute address *)
+Theorem C01_mov_acc_moffs : forall c i s,
+  wf_regs s -> Inv (mem s) -> i_op_count i = 2 -> i_op_kind i 0 = OK_Register ->
+  (is_gpr64 (i_op_register i 0) = true -> rm64_shape i 1 ->
+     i_code i = C_Mov_RAX_moffs64 -> refines i s (SMov 64) (instr_mov_rax_moffs64 c i s)) /\
+  (is_gpr32 (i_op_register i 0) = true -> rm32_shape i 1 ->
+     i_code i = C_Mov_EAX_moffs32 -> refines32 i s (SMov 32) (instr_mov_eax_moffs32 c i s)) /\
+  (is_gpr16 (i_op_register i 0) = true -> rm16_shape i 1 ->
+     i_code i = C_Mov_AX_moffs16 -> refines16 i s (SMov 16) (instr_mov_ax_moffs16 c i s)) /\
+  (is_gpr8 (i_op_register i 0) = true -> rm8_shape i 1 ->
+     i_code i = C_Mov_AL_moffs8 -> refines8 i s (SMov 8) (instr_mov_al_moffs8 c i s)).
+Proof.
+  intros c i s Hwf HI Hn K0. repeat split; intros H0 Hs Ec.
+  - exact (mov_rax_moffs64_refines c i s Hwf HI Hn K0 H0 Hs Ec).
+  - exact (mov_eax_moffs32_refines c i s Hwf HI Hn K0 H0 Hs Ec).
+  - exact (mov_ax_moffs16_refines c i s Hwf HI Hn K0 H0 Hs Ec).
+  - exact (mov_al_moffs8_refines c i s Hwf HI Hn K0 H0 Hs Ec).
+Qed.
+
+(* absolute address <- accumulator: exact, with the same boundary as every pure store (known finding
+   KF-C06-store-reads-destination: a destination that cannot be read is refused) *)
+Theorem C01_mov_moffs_acc_32_16_8 : forall c i s,
+  wf_regs s -> Inv (mem s) -> i_op_count i = 2 -> i_op_kind i 1 = OK_Register ->
+  (rm32_shape i 0 -> is_gpr32 (i_op_register i 1) = true -> i_code i = C_Mov_moffs32_EAX ->
+     match read_op i 0 32 s with
+     | Some _ => match isa_exec (SMov 32) i s with
+                 | IDone s' u => instr_mov_moffs32_eax c i s = (Ok tt, s') /\ u = 0
+                 | IFault FMem => exists e, instr_mov_moffs32_eax c i s = (Err e, s)
+                 | IFault _ => False end
+     | None => exists e, instr_mov_moffs32_eax c i s = (Err e, s) end) /\
+  (rm16_shape i 0 -> is_gpr16 (i_op_register i 1) = true -> i_code i = C_Mov_moffs16_AX ->
+     match read_op i 0 16 s with
+     | Some _ => match isa_exec (SMov 16) i s with
+                 | IDone s' u => instr_mov_moffs16_ax c i s = (Ok tt, s') /\ u = 0
+                 | IFault FMem => exists e, instr_mov_moffs16_ax c i s = (Err e, s)
+                 | IFault _ => False end
+     | None => exists e, instr_mov_moffs16_ax c i s = (Err e, s) end) /\
+  (rm8_shape i 0 -> is_gpr8 (i_op_register i 1) = true -> i_code i = C_Mov_moffs8_AL ->
+     match read_op i 0 8 s with
+     | Some _ => match isa_exec (SMov 8) i s with
+                 | IDone s' u => instr_mov_moffs8_al c i s = (Ok tt, s') /\ u = 0
+                 | IFault FMem => exists e, instr_mov_moffs8_al c i s = (Err e, s)
+                 | IFault _ => False end
+     | None => exists e, instr_mov_moffs8_al c i s = (Err e, s) end).
+Proof.
+  intros c i s Hwf HI Hn K1. repeat split; intros Hs0 H1 Ec.
+  - exact (mov_moffs32_eax_exact c i s Hwf HI Hn Hs0 K1 H1 Ec).
+  - exact (mov_moffs16_ax_exact c i s Hwf HI Hn Hs0 K1 H1 Ec).
+  - exact (mov_moffs8_al_exact c i s Hwf HI Hn Hs0 K1 H1 Ec).
+Qed.
+
+Theorem C01_mov_moffs64_rax : forall c i s,
+  wf_regs s -> Inv (mem s) -> i_op_count i = 2 -> i_op_kind i 0 = OK_Memory -> wf_mem_instr i ->
+  i_op_kind i 1 = OK_Register -> is_gpr64 (i_op_register i 1) = true -> i_code i = C_Mov_moffs64_RAX ->
+  match load 8 (ea i s) s with
+  | Some _ => match isa_exec (SMov 64) i s with
+              | IDone s' u => instr_mov_moffs64_rax c i s = (Ok tt, s') /\ u = 0
+              | IFault FMem => exists e, instr_mov_moffs64_rax c i s = (Err e, s)
+              | IFault _ => False end
+  | None => exists e, instr_mov_moffs64_rax c i s = (Err e, s)
+  end.
+Proof. exact mov_moffs64_rax_exact. Qed.
+
+(* the vector-register forms: XORPS (a memory operand must be 16-byte aligned), MOVUPS (load, store, register
+   copy; no alignment requirement), MOVD to and from an XMM register *)
+Theorem C01_xmm : forall c i s, wf_regs s -> Inv (mem s) -> i_op_count i = 2 ->
+  (i_op_kind i 0 = OK_Register -> is_xmm (i_op_register i 0) = true -> xmmm_shape i 1 ->
+     i_code i = C_Xorps_xmm_xmmm128 -> xmm_refines i s SXorps (instr_xorps_xmm_xmmm128 c i s)) /\
+  (i_op_kind i 0 = OK_Register -> is_xmm (i_op_register i 0) = true -> xmmm_shape i 1 ->
+     i_code i = C_Movups_xmm_xmmm128 -> xmm_refines i s SMovups (instr_movups_xmm_xmmm128 c i s)) /\
+  (xmmm_shape i 0 -> i_op_kind i 1 = OK_Register -> is_xmm (i_op_register i 1) = true ->
+     i_code i = C_Movups_xmmm128_xmm -> xmm_refines i s SMovups (instr_movups_xmmm128_xmm c i s)) /\
+  (i_op_kind i 0 = OK_Register -> is_xmm (i_op_register i 0) = true -> rm32_shape i 1 ->
+     i_code i = C_Movd_xmm_rm32 -> xmm_refines i s SMovdToXmm (instr_movd_xmm_rm32 c i s)) /\
+  (rm32_shape i 0 -> i_op_kind i 1 = OK_Register -> is_xmm (i_op_register i 1) = true ->
+     i_code i = C_Movd_rm32_xmm -> xmm_refines i s SMovdFromXmm (instr_movd_rm32_xmm c i s)).
+Proof.
+  intros c i s Hwf HI Hn. repeat split.
+  - exact (xorps_refines c i s Hwf HI Hn).
+  - exact (movups_load_refines c i s Hwf HI Hn).
+  - exact (movups_store_refines c i s Hwf HI Hn).
+  - exact (movd_to_xmm_refines c i s Hwf HI Hn).
+  - exact (movd_from_xmm_refines c i s Hwf HI Hn).
+Qed.
+
 (* DIV r/m64: quotient and remainder of RDX:RAX by the register or memory divisor (the complete
    statement, including the failing cases, is C06_div_rm64) *)
 Theorem C01_div_rm64 : forall c i s,
@@ -336,3 +443,10 @@ Print Assumptions C01_mov_reg_imm_16_8.
 Print Assumptions C01_mov_rm32_r32.
 Print Assumptions C01_mov_rm16_r16.
 Print Assumptions C01_mov_rm8_r8.
+Print Assumptions C01_cwd.
+Print Assumptions C01_lea_r16.
+Print Assumptions C01_movzx_r16_rm8.
+Print Assumptions C01_mov_acc_moffs.
+Print Assumptions C01_mov_moffs_acc_32_16_8.
+Print Assumptions C01_mov_moffs64_rax.
+Print Assumptions C01_xmm.
